@@ -24,6 +24,7 @@ func genC17(w *World, res *CheckResult) {
 		res.Functions = append(res.Functions, n)
 	}
 	genPatcherExit(w, res)
+	genPipelineOrder(w, res)
 	// "wherever the occurrence sits": the traversal obligations of C10
 	tmp := &CheckResult{Extra: map[string]interface{}{}}
 	genC10(w, tmp)
